@@ -364,7 +364,7 @@ PROPS = {
         'not_reached': ['worker interleavings (assumed primitives)', 'text rendering and the final table dump', 'closure glue between the lifted fragments (record hand-out, progress bar)'],
     },
     'C15': {
-        'units': ['cli_wiring', 'ctor'], 'deps': ['mmap_rows', 'batch_loops', 'reader_glue', 'count_route', 'min_lines'], 'replay': 'c15,c04',
+        'units': ['cli_wiring', 'ctor'], 'deps': ['mmap_rows', 'batch_loops', 'reader_glue', 'count_route', 'min_lines', 'cov_vec'], 'replay': 'c15,c04,c08',
         'level_text': 'Narrow claim. Verus proves for the lifted option-to-setter statements of the oligo, coverage, counter and minimiser arms of cli(), against stub computers whose setters record a ghost configuration: '
                       'csv/tsv/spc change only the delimiter (",", tab, space), the header flag only sets header, counts only flips normalisation, --acgt only sets the rendering flag, the thread option is applied iff > 0 and touches nothing else, '
                       'k / bins / memory / alt-input are passed through unchanged; and every value accepted by the clap value_parser ranges (read from the attribute text on every run) satisfies the preconditions of the library '
